@@ -180,7 +180,10 @@ def run(ck):
         "structure-first random rules (1-4 identifiers; mappings, sequences of mappings, nested blocks, key modifiers, every "
         "pattern kind, conditions with and/or/not/all()/of()/casts) x 6 documents derived from each rule (fields absent / "
         "matching / near-miss / wrong kind / arrays / arrays of objects) x all 16 switch sets, three-valued on the crate and on "
-        "the model (all hash orders enumerated); plus forced interactions and the witnesses of the known findings. "
+        "the model (under the crate's map order, Model/Order.v; the LOADED and the OPTIMISED expression trees of all 16 switch "
+        "sets are compared structurally); plus forced interactions, the coverage families, every corpus witness and the "
+        "55 400-field rule. The runner marks the switch sets for which the rule lies in a proved scope (scope_all_sound / "
+        "scope_quant_all_sound): there no verdict change is accepted at all. "
         "Non-trivial = the unoptimised result is not constant over the documents; distinct = distinct rule text. A failing "
         "(rule, switches) is suppressed only when the model reproduces it and a classifier of a listed finding accepts it.")
     for c in cases[:3]:
